@@ -60,6 +60,16 @@ fn replay(args: &Args) {
             r2.run_op(&mut w, &mut rec, &a, &mut ctr);
         }
     }
+    // withdrawals with output swap paths of two hops that end in a token of the path's first market
+    for (m, p1, p2) in [("M1", vec!["M2", "M1"], vec![]), ("M1", vec![], vec!["M2", "M1"]), ("M2", vec!["M1", "M2"], vec!["M1", "M2"]),
+                        ("M1", vec!["M1", "M2"], vec!["M1", "M2"]), ("M3", vec![], vec!["M1", "M2"]), ("M3", vec![], vec!["M2", "M1"])] {
+        let mut w = base.clone();
+        let mut ctr = 4000u64;
+        rec.reset = true;
+        rec.step = "withdraw_path".into();
+        let o = AbsOp { op: "withdraw_path".into(), m: mi(&r2, m), a: 2, user: 0, path: p1.iter().map(|l| mi(&r2, l)).collect(), path2: p2.iter().map(|l| mi(&r2, l)).collect(), ..Default::default() };
+        r2.run_op(&mut w, &mut rec, &o, &mut ctr);
+    }
     // position cuts: every (market, position side, collateral side, liquidate | ADL, swap ok | swap fails)
     for m in ["M1", "M3", "M2"] {
         for a in 0..4u64 {
